@@ -27,7 +27,7 @@ def honest : ShapeVec :=
 
 /-- Non-vacuity: the hypotheses of `fri_shape_iff` hold on `honest`, and both sides accept it. -/
 example : honest.queries.length = honest.p.numQueries ∧
-    (∀ la ∈ honest.firstArities, 1 ≤ la ∧ la ≤ honest.p.maxLogArity) ∧
+    (∀ la ∈ honest.firstArities, la ≤ honest.p.maxLogArity) ∧
     (∀ b ∈ honest.batches, ∀ m ∈ b, m.2 ≠ []) ∧
     (∀ h ∈ honest.heights, h = honest.logMax ∨ h ∈ honest.foldedHeights) ∧
     honest.numBetas = honest.numCommits ∧ (honest.twoAdicity ≤ 31 ∧ honest.logMax ≤ honest.twoAdicity) ∧
@@ -39,13 +39,14 @@ theorem shape_needs_num_queries :
     let sv := { honest with queries := [q [1, 1] [[3]]] }
     CircuitShapeOk sv ∧ ¬ NativeShapeOk sv := by decide
 
-/-- H2 (lower bound) is necessary: a `log_arity = 0` phase. Native: `InvalidLogArity`. -/
-theorem shape_needs_arity_lower_bound :
+/-- Regression for C07-F3c (fixed by fixes/C07-2): a `log_arity = 0` phase is now rejected by the
+circuit's shape validation as well as by native (`InvalidLogArity`). -/
+theorem arity_zero_rejected_by_both :
     let sv := { honest with numBetas := 3, numCommits := 3, numPow := 3,
                             queries := [q [0, 1, 1] [[3]], q [0, 1, 1] [[3]]] }
-    CircuitShapeOk sv ∧ ¬ NativeShapeOk sv := by decide
+    ¬ CircuitShapeOk sv ∧ ¬ NativeShapeOk sv := by decide
 
-/-- H2 (upper bound) is necessary: schedule `[2]` against `max_log_arity = 1`. -/
+/-- H2 is necessary: schedule `[2]` against `max_log_arity = 1`. -/
 theorem shape_needs_arity_upper_bound :
     let sv := { honest with numBetas := 1, numCommits := 1, numPow := 1,
                             queries := [q [2] [[3]], q [2] [[3]]] }
